@@ -8,7 +8,7 @@ import MpVerif.C10.Model
   doctable                  ↦ the hand-written documented table, same format
   markers CODE NOBJ FR ORIG KAPPA EXTRA NALTREPORTED ALTOBJ WARNINGS ↦ `markers … | <recognisable message pieces in order>`
   addres CANREPLACE a:b a:b … ↦ `addres … | <resulting registry a:b…, new entries marked +>` or `error`
-  extras CODE NOBJ FEASRELAX ORIGOBJ KAPPA RAYP RAYD IIS ↦ `extras … | <Extras>`
+  extras CODE NOBJ FEASRELAX ORIGOBJ KAPPA RAYP RAYD IIS SOLVIOLATES ↦ `extras … | <Extras>`
   report CODE NOBJ PR DU NALT STUB ↦ `report CODE NOBJ PR DU NALT STUB | <Report>`
 -/
 open MpVerif.C10 MpVerif.Gen.Status
@@ -48,13 +48,13 @@ def handle (out : IO.FS.Stream) (ws : List String) : IO Unit := do
       let a : Answer := { code := c, nObj := n, hasPrimal := p, hasDual := d, nAlt := k, solStub := st }
       out.putStrLn s!"report {c} {n} {b2s p} {b2s d} {k} {b2s st} | {(report a).toStr}"
     | _, _, _, _, _, _ => out.putStrLn "bad-op"
-  | ["extras", c, n, fr, og, ka, rp, rd, ii] =>
-    match c.toInt?, n.toNat?, parseBool fr, parseBool og, parseBool ka, parseBool rp, parseBool rd, parseBool ii with
-    | some c, some n, some fr, some og, some ka, some rp, some rd, some ii =>
+  | ["extras", c, n, fr, og, ka, rp, rd, ii, sv] =>
+    match c.toInt?, n.toNat?, parseBool fr, parseBool og, parseBool ka, parseBool rp, parseBool rd, parseBool ii, parseBool sv with
+    | some c, some n, some fr, some og, some ka, some rp, some rd, some ii, some sv =>
       let a : Answer := { code := c, nObj := n, hasPrimal := true, hasDual := true, feasrelax := fr, origObj := og,
-                          kappaOpt := ka, rayPrimalOpt := rp, rayDualOpt := rd, iisOpt := ii }
-      out.putStrLn s!"extras {c} {n} {b2s fr} {b2s og} {b2s ka} {b2s rp} {b2s rd} {b2s ii} | {(extras a).toStr}"
-    | _, _, _, _, _, _, _, _ => out.putStrLn "bad-op"
+                          kappaOpt := ka, rayPrimalOpt := rp, rayDualOpt := rd, iisOpt := ii, solViolates := sv }
+      out.putStrLn s!"extras {c} {n} {b2s fr} {b2s og} {b2s ka} {b2s rp} {b2s rd} {b2s ii} {b2s sv} | {(extras a).toStr}"
+    | _, _, _, _, _, _, _, _, _ => out.putStrLn "bad-op"
   | ["markers", c, n, fr, og, ka, ex, k, ao, w] =>
     match c.toInt?, n.toNat?, parseBool fr, parseBool og, parseBool ka, parseBool ex, k.toNat?, parseBool ao, parseBool w with
     | some c, some n, some fr, some og, some ka, some ex, some k, some ao, some w =>
